@@ -27,13 +27,18 @@ def agg_io():
     want = [head,
             "with open(str(file), 'r', encoding='utf8', newline='') as tsvfile:\n    " + rd + "\n    rows = [row for row in rd]\n"
             "    if len(rows) == 0:\n        row = []\n    else:\n        row = rows[0]", "return row"]
-    if body_differs(fn, want):
+    # the same value computed after the file is closed (the rows are a local list by then)
+    want_after = [head, "with open(str(file), 'r', encoding='utf8', newline='') as tsvfile:\n    " + rd + "\n    rows = [row for row in rd]",
+                  "return rows[0] if len(rows) > 0 else []"]
+    if body_differs(fn, want) and body_differs(fn, want_after):
         raise Refuse("_read_first_row: " + str(body_differs(fn, want))[:300])
     fn = find_func(tree, "_write_content")
     want = [head,
             "with open(str(file), 'a', encoding='utf8', newline='') as tsvfile:\n    writer = csv.writer(tsvfile, delimiter='\\t', lineterminator='\\n')\n"
             "    for c in content:\n        writer.writerow(c)"]
-    if body_differs(fn, want):
+    # csv's writerows is the loop over writerow
+    want_rows = [head, want[1].replace("    for c in content:\n        writer.writerow(c)", "    writer.writerows(content)")]
+    if body_differs(fn, want) and body_differs(fn, want_rows):
         raise Refuse("_write_content: " + str(body_differs(fn, want))[:300])
     out = ["From Pan Require Import Base.Common.",
            "(* rows are written and parsed by the csv module with delimiter TAB (9) and line terminator LF (10); writes append *)",
